@@ -7,7 +7,8 @@
 (* harness/drv_image.c builds the freshly created replica from them.                                *)
 (* Used with -generate (random histories) and breadth-first (all histories of a small depth).       *)
 (* With Focus = TRUE only histories that keep calling the SAME setter, with a rendering before the  *)
-(* first call and after every call, are produced: set(v1); render; set(v2); render for all pairs    *)
+(* first call and after every call, are produced (after a prelude that makes the setter's effect    *)
+(* visible, see PreludeOf): set(v1); render; set(v2); render for all pairs                          *)
 (* of values of every setter -- the histories on which an early-return guard that compares too      *)
 (* little shows.                                                                                    *)
 EXTENDS Image, Json
@@ -18,18 +19,42 @@ VARIABLES P, hist, name
 
 Roles(type) == IF type = "bits" THEN {"src", "mask", "dst"} ELSE {"src", "mask"}
 
+(* Focus: before the focused setter is exercised, the properties without which it has no visible effect *)
+(* are set (an alpha map for its origin and for the map's accessors, a dither for the dither offset,    *)
+(* clip + source clipping + client clip for each other, a transform for the filter)                     *)
+PreludeOf(n) ==
+    CASE n \in {"ao", "ma"} -> <<<<"am", 1>>>>
+      [] n = "am" -> <<<<"ao", 4>>>>
+      [] n = "dof" -> <<<<"d", 1>>>>
+      [] n = "d" -> <<<<"dof", 4>>>>
+      [] n = "sc" -> <<<<"c", 1>>, <<"cc", 1>>>>
+      [] n = "cc" -> <<<<"c", 1>>, <<"sc", 1>>>>
+      [] n = "c" -> <<<<"sc", 1>>, <<"cc", 1>>>>
+      [] n = "f" -> <<<<"t", 2>>>>
+      [] OTHER -> <<>>
+RECURSIVE WithPrelude(_, _, _, _)
+WithPrelude(Q, h, pre, k) ==        \* <<state, history>> after the prelude calls pre[k..]
+    IF k > Len(pre) THEN <<Q, h>>
+    ELSE IF ~Applicable(Q.type, pre[k][1]) THEN WithPrelude(Q, h, pre, k + 1)
+    ELSE LET R == SetProp(Q, pre[k][1], pre[k][2]) IN
+         WithPrelude(ValidateP(R), Append(h, [op |-> "set", j |-> pre[k][1], v |-> pre[k][2], r |-> 1, want |-> R.want]),
+                     pre, k + 1)       \* (a rendering follows every prelude call too)
+
 GenInit ==
     /\ \E t \in Types, r0 \in (IF Focus THEN {1} ELSE 0..1) : \E role \in Roles(t) :
-          /\ P = (IF r0 = 1 THEN ValidateP(PropInit(t)) ELSE PropInit(t))
-          /\ hist = <<[op |-> "config", type |-> t, role |-> role, r0 |-> r0]>>
+          \E fn \in (IF Focus THEN {c.j : c \in SetCalls(t)} ELSE {""}) :
+             LET P0 == IF r0 = 1 THEN ValidateP(PropInit(t)) ELSE PropInit(t)
+                 st == WithPrelude(P0, <<>>, IF Focus THEN PreludeOf(fn) ELSE <<>>, 1)
+             IN /\ P = st[1]
+                /\ hist = <<[op |-> "config", type |-> t, role |-> role, r0 |-> r0, focus |-> fn, pre |-> Len(st[2])]>> \o st[2]
     /\ name = ""
 
-Steps == Len(hist) - 1
+Steps == Len(hist) - 1 - hist[1].pre
 
 (* two-phase steps: first the setter (uniformly), then its value and whether a rendering follows *)
 Choose == /\ name = "" /\ Steps < Depth
           /\ name' \in {c.j : c \in SetCalls(P.type)}
-          /\ (Focus /\ Steps >= 1) => name' = hist[2].j
+          /\ Focus => name' = hist[1].focus
           /\ UNCHANGED <<P, hist>>
 
 Do == /\ name # "" /\ name' = ""
